@@ -57,17 +57,18 @@ def run_jobs(fn, args, nworkers, deadline=None, job_timeout=None):
     pending.reverse()
     workers = [Worker(ctx, fn) for _ in range(max(1, min(nworkers, len(args))))]
     running = 0
+    handed_out = False      # every worker gets its first job even if the deadline has already passed
     try:
         while pending or running:
             now = time.time()
-            if deadline is not None and now > deadline:
-                for w in workers:
-                    if w.job is not None:
-                        yield w.job, 'deadline', None
-                        w.job = None
+            if deadline is not None and now > deadline and pending and handed_out:
+                # the time budget is used up: hand out no new jobs, but let the running ones finish (each is
+                # still bounded by job_timeout) -- on an overloaded machine dropping them could leave no result at all
                 for j in pending:
                     yield j, 'deadline', None
-                return
+                pending = []
+                if not running:
+                    return
             for w in workers:
                 if w.job is None and pending and w.proc.is_alive():
                     j = pending.pop()
@@ -75,6 +76,7 @@ def run_jobs(fn, args, nworkers, deadline=None, job_timeout=None):
                         w.parent_conn.send((j, args[j]))
                         w.job, w.t0 = j, time.time()
                         running += 1
+                        handed_out = True
                     except (BrokenPipeError, OSError):
                         pending.append(j)
             waitables = []
